@@ -82,14 +82,18 @@ def make_frames(case):
     if is_district_office(case["office"]):
         pre.insert(3, "district", [u["dist"] for u in units])
     rows = []
+    nan_cells = []  # (row index, column): a feed row whose count for one estimand has not arrived yet
     for u in units:
         f = u.get("feed")
         if f is not None:
+            if f.get("nan") in ("dem", "gop"):
+                nan_cells.append((len(rows), "results_" + f["nan"]))
             rows.append((u["st"], u["id"], f["pev"], f["rd"], f["rg"], f["rd"] + f["rg"] + f["ro"]))
     for e in case.get("extra", []):
         rows.append((e["st"], e["id"], e["pev"], e["rd"], e["rg"], e["rd"] + e["rg"] + e["ro"]))
     if case.get("feed_rev"):
         rows = rows[::-1]
+        nan_cells = [(len(rows) - 1 - i, c) for i, c in nan_cells]
     cur = pd.DataFrame(
         rows,
         columns=["postal_code", "geographic_unit_fips", "percent_expected_vote", "results_dem", "results_gop", "results_turnout"],
@@ -97,6 +101,9 @@ def make_frames(case):
     for c in ("results_dem", "results_gop", "results_turnout"):
         cur[c] = cur[c].astype(vt)
     cur["percent_expected_vote"] = cur["percent_expected_vote"].astype(float)
+    for i, c in nan_cells:
+        cur[c] = cur[c].astype(float)
+        cur.loc[i, c] = np.nan
     return pre, cur
 
 
